@@ -50,6 +50,8 @@ def _system(draw, big):
         for j in range(i, dim):
             other[i][j] = other[j][i] = draw(st.integers(-5, 5))
     return {"kind": "system", "spec": spec, "theory": theory, "td": td, "as_ops": as_ops, "secular": secular,
+            # secularize() called on the finished tensor, possibly more than once, each time in some basis
+            "resecularize": draw(st.lists(st.sampled_from(["site", "eigen", "other"]), max_size=3)),
             "cutoff_time": draw(st.sampled_from([None, None, 0.3, 0.6])) if theory == "stR" else None,
             "coupling_cutoff": draw(st.sampled_from([None, 0, 5, 40, 120, 400])) if theory == "cRF" else None,
             "route": draw(st.sampled_from(["opensystem", "direct"])) if theory == "stR" else "opensystem",
@@ -232,6 +234,42 @@ def _check_system(case, ctx):
         # round trip through the site basis
         ctx.bound("secular/other-elements-zero", float(numpy.max(numpy.abs(S[:, ~keep]))) if (~keep).any() else 0.0,
                   1e-9 * sc + 1e-13, where=tag)
+
+
+    # ---- secularize() called explicitly, possibly repeatedly and in different bases -----------------------
+    seq = case.get("resecularize") or []
+    if seq and case["theory"] == "stR" and not case["td"]:
+        from quantarhei.qm import SelfAdjointOperator
+        ok, r3 = guarded(ctx, "construct", lambda: _build(qr, case, False, as_ops=False), tag + "/for-secularize")
+        if not ok:
+            return
+        RS, ham3 = r3
+        oth = SelfAdjointOperator(data=numpy.array(case["other"], dtype=float))
+        import contextlib
+        for k, where_b in enumerate(seq):
+            cm = {"site": contextlib.nullcontext(), "eigen": qr.eigenbasis_of(ham3), "other": qr.eigenbasis_of(oth)}[where_b]
+
+            def call():
+                with cm:
+                    before = numpy.array(RS.data)
+                    RS.secularize()
+                    return before, numpy.array(RS.data)
+            ok, ba = guarded(ctx, "secularize", call, tag + "/" + where_b, call_no=k)
+            if not ok:
+                return
+            before, after = ba
+            d = before.shape[0]
+            keep = numpy.zeros((d, d, d, d), dtype=bool)
+            for a in range(d):
+                for b in range(d):
+                    keep[a, a, b, b] = True
+                    keep[a, b, a, b] = True
+            sc = max(1e-300, float(numpy.max(numpy.abs(before))))
+            wtag = "call-%d-in-%s" % (min(k, 1), where_b)
+            ctx.bound("secularize-call/other-elements-zero", float(numpy.max(numpy.abs(after[~keep]))), 1e-12 * sc, where=wtag)
+            ctx.bound("secularize-call/kept-elements-unchanged", float(numpy.max(numpy.abs((after - before)[keep]))),
+                      1e-12 * sc, where=wtag)
+        ctx.label("secularize-sequence:" + "+".join(seq))
 
 
 def _check_lind(case, ctx):
